@@ -13,7 +13,10 @@ def _gt(*names):
 
 THEOREMS = {
     "C01": _gt("errEnum_eq", "rfcEnum_eq", "setup_eq", "limits_eq"),
-    "C02": _gt("errEnum_eq", "specials_eq"),
+    "C02": _gt("errEnum_eq", "specials_eq") + [("Eav.Props.C02", "Eav.Props.C02." + n) for n in
+            ("local_iff_5321", "local_iff_822", "local_iff_5322", "no_high_byte", "no_leading_dot")] +
+           [("Eav.Lemmas.LocalGrammar", "Eav.Spec.specLocal_iff"), ("Eav.Lemmas.LocalScan", "Eav.is5321Local_iff"),
+            ("Eav.Lemmas.LocalScan", "Eav.is822Local_iff"), ("Eav.Lemmas.LocalScan", "Eav.is5322Local_iff")],
     "C03": _gt("errEnum_eq", "specials_eq", "buildOpts_eq"),
     "C04": _gt("errEnum_eq", "limits_eq", "buildOpts_eq") + [("Eav.Props.C04", "Eav.Props.C04." + n) for n in
             ("host_iff", "isAsciiDomain_iff_spec", "specHost_iff", "host6531_sound", "isAsciiDomain_nonpos")] + [("Eav.Lemmas.Domain", "Eav.domLoop_ok")],
